@@ -54,15 +54,26 @@ def run_table(t):
     finally:
         statements.default_scopes.clear(); statements.default_scopes.update(saved)
     return obs
-def real_table(language, fields, paths, seed, nextra):
+def real_table(language, fields, paths, seed, nextra, which="fc"):
     import itertools, random
-    statements.update_statements_for_language(language)
+    from shroud import wrapp, wrapl
+    if which == "fc":
+        statements.update_statements_for_language(language)
+        table, lookup, defs = statements.fc_statements, statements.lookup_fc_stmts, (("c", statements.CStmts), ("f", statements.FStmts))
+    elif which == "py":
+        wrapp.py_tree.clear()
+        wrapp.update_statements_for_language(language)
+        table, lookup, defs = wrapp.py_statements, wrapp.lookup_stmts, (("py", wrapp.PyStmts), ("base", wrapp.PyStmts))
+    else:
+        wrapl.lua_tree.clear()
+        wrapl.update_statements_for_language(language)
+        table, lookup, defs = wrapl.lua_statements, wrapl.lookup_stmts, (("lua", wrapl.LuaStmts),)
     # the paths: every entry's own name, then variations of entry names (blank parts, a part replaced by one that
     # occurs elsewhere at that position, extra trailing parts, a part dropped) -- what the wrappers form from
     # (language, type group, indirection, intent, generated suffix, deref, specialisation)
     rng = random.Random(seed)
     names = []
-    for node in statements.fc_statements:
+    for node in table:
         for tpl in itertools.product(*[part.split("/") for part in node["name"].split("_")]):
             names.append(list(tpl))
     bypos = {}
@@ -87,17 +98,17 @@ def real_table(language, fields, paths, seed, nextra):
         paths.append(n)
     out = []
     def s(v): return v if isinstance(v, str) else json.dumps(v, default=str)
-    for node in statements.fc_statements:
+    for node in table:
         out.append({"alts": [part.split("/") for part in node["name"].split("_")],
                     "base": node["base"].split("_") if "base" in node else [],
                     "mixin": [m.split("_") for m in node.get("mixin", [])] if "base" not in node else [],
                     "own": {f: (s(node[f]) if f in node else UNSET) for f in fields}})
     defaults = {}
-    for l, sc in (("c", statements.CStmts), ("f", statements.FStmts)):
+    for l, sc in defs:
         defaults[l] = {f: s(sc.get(f, "<none>")) for f in fields}
     obs = {"err": "", "names": [], "vals": []}
     for p in paths:
-        r = statements.lookup_fc_stmts(p)
+        r = lookup(p)
         nm = r.name
         obs["names"].append([] if nm.endswith("_default") else nm.split("_"))
         obs["vals"].append([s(r.get(f, "<none>")) for f in fields])
@@ -106,6 +117,8 @@ job = json.load(open(sys.argv[1]))
 res = {"tables": [run_table(t) for t in job["tables"]]}
 if job.get("real"):
     res["real"] = real_table(job["real"]["language"], job["real"]["fields"], job["real"]["paths"], job["real"]["seed"], job["real"]["nextra"])
+    res["real_py"] = real_table(job["real"]["language"], ["object_created", "goto_fail", "need_numpy", "c_helper"], [], job["real"]["seed"], job["real"]["nextra"] // 2, "py")
+    res["real_lua"] = real_table(job["real"]["language"], ["pre_call", "post_call"], [], job["real"]["seed"], 200, "lua")
 json.dump(res, open(sys.argv[2], "w"))
 '''
 
@@ -196,13 +209,16 @@ def run(c, tier):
         meta.append(("generated", t))
     real = res["real"]
     paths = real["paths"]
-    # the real table, its lookups in slices (each trace rebuilds the table)
+    # the real tables (C/Fortran, Python, Lua), their lookups in slices (each trace rebuilds the table)
     step = 300
-    for k in range(0, len(paths), step):
-        traces.append({"stmts": real["stmts"], "fields": REAL_FIELDS, "defaults": real["defaults"], "paths": paths[k:k + step],
-                       "observed": {"err": real["observed"]["err"], "names": real["observed"]["names"][k:k + step],
-                                    "vals": real["observed"]["vals"][k:k + step]}})
-        meta.append(("real", k))
+    for tag, rt, flds in (("real", res["real"], REAL_FIELDS), ("real-py", res["real_py"], ["object_created", "goto_fail", "need_numpy", "c_helper"]),
+                          ("real-lua", res["real_lua"], ["pre_call", "post_call"])):
+        ps = rt["paths"]
+        for k in range(0, len(ps), step):
+            traces.append({"stmts": rt["stmts"], "fields": flds, "defaults": rt["defaults"], "paths": ps[k:k + step],
+                           "observed": {"err": rt["observed"]["err"], "names": rt["observed"]["names"][k:k + step],
+                                        "vals": rt["observed"]["vals"][k:k + step]}})
+            meta.append((tag, k))
     # negative controls: a wrong name, a wrong value, an error swallowed
     ctl = []
     for t in traces:
@@ -221,14 +237,16 @@ def run(c, tier):
         c.count(1, [json.dumps(t["paths"][:2])] if kind == "generated" else ["real-%s" % what])
         if verdict != "ACCEPT":
             nrej += 1
-            key = "stmt-table:%s:%s" % (kind, detail.split('"')[1] if '"' in detail else detail[:40])
+            key = "stmt-table:%s:%s" % (kind, (detail.split('"')[1] if '"' in detail else detail[:40]).replace(" ", "_"))
             c.violation(key, "statement table (%s): %s" % (kind, detail[:400]),
-                        {"kind": kind, "detail": detail, "table": t["stmts"] if kind == "generated" else "(real fc_statements)",
+                        {"kind": kind, "detail": detail, "table": t["stmts"] if kind == "generated" else "(real table of the tree under test)",
                          "paths": t["paths"][:20], "observed": {"err": t["observed"]["err"], "names": t["observed"]["names"][:20]}})
     for verdict, detail in v[len(traces):]:
         if verdict != "REJECT":
             raise MachineryError("negative control of the statement-table validation accepted")
     c.part("statement_tables", generated_tables=len(tables), real_entries=len(real["stmts"]), real_lookups=len(paths),
            real_lookups_finding_an_entry=sum(1 for n in real["observed"]["names"] if n),
+           python_entries=len(res["real_py"]["stmts"]), python_lookups=len(res["real_py"]["paths"]),
+           lua_entries=len(res["real_lua"]["stmts"]), lua_lookups=len(res["real_lua"]["paths"]),
            distinct_entries_found=len({tuple(n) for n in real["observed"]["names"] if n}),
            refused_tables=sum(1 for o in res["tables"] if o["err"]), rejected=nrej, controls=len(ctl))
